@@ -41,15 +41,36 @@ def runSteps {d : Nat} : List Step → List (Matrix (Fin 2) (Fin 2) ℂ) → Mat
 def entry {d : Nat} (U : Matrix (Fin d) (Fin d) ℂ) (i j : Nat) : ℂ :=
   if h : i < d ∧ j < d then U ⟨i, h.1⟩ ⟨j, h.2⟩ else 0
 
-/-- phases `e^{iπ q}` on the diagonal -/
-noncomputable def phaseDiag {d : Nat} (ph : List Rat) : Matrix (Fin d) (Fin d) ℂ :=
-  Matrix.diagonal (fun i => Complex.exp (Complex.I * (Real.pi * ((ph.getD i.val 0 : Rat) : ℝ))))
+/-! real-angle versions of the `_commute` bookkeeping (angles in units of π); the executable model
+`ClementsSched.commute` over `Rat` is the restriction to rational multiples of π (`commute_cast`) -/
 
-noncomputable def bsOf {d : Nat} (b : BSq) : Matrix (Fin d) (Fin d) ℂ :=
-  emb b.m0 (bsMat (Real.pi * (b.theta : ℝ)) (Real.pi * (b.phi : ℝ)))
+structure BSr where
+  m0 : Nat
+  theta : ℝ
+  phi : ℝ
+
+noncomputable def mod2R (x : ℝ) : ℝ := x - 2 * (⌊x / 2⌋ : ℝ)
+
+noncomputable def commuteAnglesR (theta phi phi1 phi2 : ℝ) : ℝ × ℝ × ℝ × ℝ :=
+  (theta, mod2R (phi1 - phi2 + 1), mod2R (phi2 - phi + 1), phi2)
+
+noncomputable def commuteR (phases : List ℝ) (bss : List BSr) : List BSr × List ℝ :=
+  bss.foldl (fun (acc : List BSr × List ℝ) bs =>
+    let ph := acc.2
+    let r := commuteAnglesR bs.theta bs.phi (ph.getD bs.m0 0) (ph.getD (bs.m0 + 1) 0)
+    (acc.1 ++ [⟨bs.m0, r.1, r.2.1⟩], (ph.set bs.m0 r.2.2.1).set (bs.m0 + 1) r.2.2.2)) ([], phases)
+
+def BSq.toR (b : BSq) : BSr := ⟨b.m0, (b.theta : ℝ), (b.phi : ℝ)⟩
+
+/-- phases `e^{iπ x}` on the diagonal -/
+noncomputable def phaseDiag {d : Nat} (ph : List ℝ) : Matrix (Fin d) (Fin d) ℂ :=
+  Matrix.diagonal (fun i => Complex.exp (Complex.I * (Real.pi * ph.getD i.val 0)))
+
+noncomputable def bsOf {d : Nat} (b : BSr) : Matrix (Fin d) (Fin d) ℂ :=
+  emb b.m0 (bsMat (Real.pi * b.theta) (Real.pi * b.phi))
 
 /-- `inverse_clements`: beamsplitters in list order (later ones multiply from the left), then the phases -/
-noncomputable def inverseClements {d : Nat} (bss : List BSq) (ph : List Rat) : Matrix (Fin d) (Fin d) ℂ :=
+noncomputable def inverseClements {d : Nat} (bss : List BSr) (ph : List ℝ) : Matrix (Fin d) (Fin d) ℂ :=
   phaseDiag ph * bss.foldl (fun acc b => bsOf b * acc) 1
 
 end Pq.ClementsMat
